@@ -197,50 +197,46 @@ fn init() {
     worlds::set_sched_hook_all(Some(sched::lib_hook));
 }
 
-fn cmd_run(a: &Args) -> i32 {
-    let ctx = Ctx {
-        prop: a.get("prop", "C13"),
-        engine: a.get("engine", "native"),
-        profile: a.get("profile", "release"),
-        thorough: a.get("tier", "quick") == "thorough",
-    };
-    let seed = a.u64("seed", 1);
-    let (from, to) = (a.u64("from", 0), a.u64("to", 100));
-    let (offset, stride) = (a.u64("offset", 0), a.u64("stride", 1).max(1));
-    let out = a.get("out", "");
-    let replay_dir = a.get("replay-dir", "/verif/replays");
-    let progress = a.kv.get("progress").map(|p| std::fs::File::create(p).expect("progress file"));
-    let trace_cases = a.kv.contains_key("trace-cases");
-    let max_secs = a.u64("max-secs", 0);
-    let want_digests = a.kv.contains_key("digests");
-    let t0 = std::time::Instant::now();
-    init();
+struct RunCfg<'a> {
+    ctx: &'a Ctx,
+    a: &'a Args,
+    seed: u64,
+    replay_dir: String,
+    progress: Option<std::fs::File>,
+    trace_cases: bool,
+    want_digests: bool,
+    stride: u64,
+}
 
-    let mut stats = Stats::default();
-    let mut rc = 0;
-    let mut i = from + ((offset + stride - (from % stride)) % stride);
-    while i < to {
-        if max_secs > 0 && t0.elapsed().as_secs() >= max_secs {
-            stats.notes.insert(format!("stopped at run index {} by --max-secs", i));
-            break;
+/// Execute the given run indices in this process. Returns 1 at the first violation.
+fn run_indices(rc_cfg: &RunCfg, indices: &[u64], stats: &mut Stats, deadline: Option<std::time::Instant>) -> i32 {
+    let ctx = rc_cfg.ctx;
+    let a = rc_cfg.a;
+    let seed = rc_cfg.seed;
+    for &i in indices {
+        if let Some(d) = deadline {
+            if std::time::Instant::now() >= d {
+                stats.notes.insert(format!("stopped at run index {} by --max-secs", i));
+                break;
+            }
         }
         let rs = rng::run_seed(seed, &ctx.prop, i);
-        if let Some(p) = &progress {
+        if let Some(p) = &rc_cfg.progress {
             use std::os::unix::fs::FileExt;
             let _ = p.write_at(format!("{:>20}\n", i).as_bytes(), 0);
         }
-        if trace_cases {
+        if rc_cfg.trace_cases {
             println!("CASE {}", i);
         }
-        let case = gen_case(&ctx, rs);
+        let case = gen_case(ctx, rs);
         stats.inc("runs");
-        if stats.samples.len() < 3 && (i / stride) % 7 == 0 {
+        if stats.samples.len() < 3 && (i / rc_cfg.stride) % 7 == 0 {
             let mut d = describe(&case);
             d["run_index"] = serde_json::json!(i);
             d["run_seed"] = serde_json::json!(rs);
             stats.samples.push(d);
         }
-        match run_case(&case, &mut stats, ctx.miri()) {
+        match run_case(&case, stats, ctx.miri()) {
             Ok(o) => {
                 // exact sets up to a cap per worker; beyond it the count is a lower bound (and says so)
                 if stats.fingerprints.len() < SET_CAP {
@@ -258,7 +254,7 @@ fn cmd_run(a: &Args) -> i32 {
                         }
                     }
                 }
-                if want_digests {
+                if rc_cfg.want_digests {
                     stats.digests.push((i, o.digest));
                 }
             },
@@ -289,19 +285,131 @@ fn cmd_run(a: &Args) -> i32 {
                 let path = if ctx.miri() {
                     // no file system under Miri's isolation: hand the replay file to the orchestrator
                     println!("VIOLATION-CASE {}", serde_json::to_string(&rf).unwrap());
-                    format!("{}/{}-{}-seed{}-run{}.json", replay_dir, rf.property, rf.engine, rf.verif_seed, rf.run_index)
+                    format!("{}/{}-{}-seed{}-run{}.json", rc_cfg.replay_dir, rf.property, rf.engine, rf.verif_seed, rf.run_index)
                 } else {
-                    write_replay(&replay_dir, &rf)
+                    write_replay(&rc_cfg.replay_dir, &rf)
                 };
                 println!("VIOLATION property={} replay={}", ctx.prop, path);
                 println!("  class={} detail={}", v2.class, v2.detail);
                 stats.violations.push(format!("{} {} {}", path, v2.class, v2.detail));
-                rc = 1;
-                break;
+                return 1;
             },
         }
+    }
+    0
+}
+
+/// "Process restart" as a simulated fault: execute the indices in forked children of
+/// `chunk` runs each. The parent never enters the library, so every child starts with
+/// pristine process-global state (lazily built tables, caches, flags a change may add):
+/// first-use behaviour is exercised once per child instead of once per worker.
+#[cfg(not(miri))]
+fn run_forked(rc_cfg: &RunCfg, indices: &[u64], chunk: usize, stats: &mut Stats, deadline: Option<std::time::Instant>) -> i32 {
+    use std::io::Read;
+    use std::os::unix::io::FromRawFd;
+    for part in indices.chunks(chunk.max(1)) {
+        if let Some(d) = deadline {
+            if std::time::Instant::now() >= d {
+                stats.notes.insert(format!("stopped at run index {} by --max-secs", part[0]));
+                break;
+            }
+        }
+        let mut fds = [0i32; 2];
+        if unsafe { libc::pipe(fds.as_mut_ptr()) } != 0 {
+            eprintln!("pipe failed");
+            return 2;
+        }
+        let pid = unsafe { libc::fork() };
+        if pid < 0 {
+            eprintln!("fork failed");
+            return 2;
+        }
+        if pid == 0 {
+            // child: a fresh process as far as the library is concerned
+            unsafe { libc::close(fds[0]) };
+            let mut st = Stats::default();
+            let rc = run_indices(rc_cfg, part, &mut st, deadline);
+            let bytes = serde_json::to_vec(&st).unwrap();
+            let mut f = unsafe { std::fs::File::from_raw_fd(fds[1]) };
+            let _ = f.write_all(&bytes);
+            drop(f);
+            std::process::exit(rc);
+        }
+        unsafe { libc::close(fds[1]) };
+        let mut f = unsafe { std::fs::File::from_raw_fd(fds[0]) };
+        let mut buf = Vec::new();
+        let _ = f.read_to_end(&mut buf);
+        drop(f);
+        let mut status = 0i32;
+        unsafe { libc::waitpid(pid, &mut status, 0) };
+        if let Ok(st) = serde_json::from_slice::<Stats>(&buf) {
+            stats.merge(st);
+        }
+        stats.inc("fault.process_restart_fresh_child");
+        let exited = libc::WIFEXITED(status);
+        let code = if exited { libc::WEXITSTATUS(status) } else { -1 };
+        if exited && code == 0 {
+            continue;
+        }
+        if exited && code == 1 {
+            return 1;
+        }
+        // the child died (signal, abort, sanitizer): die the same way so that the
+        // orchestrator classifies it; the progress file names the run index
+        if libc::WIFSIGNALED(status) {
+            let sig = libc::WTERMSIG(status);
+            eprintln!("[sim] forked child killed by signal {}", sig);
+            unsafe {
+                libc::signal(sig, libc::SIG_DFL);
+                libc::raise(sig);
+            }
+        }
+        eprintln!("[sim] forked child exited with code {}", code);
+        std::process::exit(if code > 1 { code } else { 134 });
+    }
+    0
+}
+
+fn cmd_run(a: &Args) -> i32 {
+    let ctx = Ctx {
+        prop: a.get("prop", "C13"),
+        engine: a.get("engine", "native"),
+        profile: a.get("profile", "release"),
+        thorough: a.get("tier", "quick") == "thorough",
+    };
+    let seed = a.u64("seed", 1);
+    let (from, to) = (a.u64("from", 0), a.u64("to", 100));
+    let (offset, stride) = (a.u64("offset", 0), a.u64("stride", 1).max(1));
+    let out = a.get("out", "");
+    let max_secs = a.u64("max-secs", 0);
+    let fresh = a.u64("fresh", 0) as usize;
+    let t0 = std::time::Instant::now();
+    let deadline = if max_secs > 0 { Some(t0 + std::time::Duration::from_secs(max_secs)) } else { None };
+    init();
+    let cfg = RunCfg {
+        ctx: &ctx,
+        a,
+        seed,
+        replay_dir: a.get("replay-dir", "/verif/replays"),
+        progress: a.kv.get("progress").map(|p| std::fs::File::create(p).expect("progress file")),
+        trace_cases: a.kv.contains_key("trace-cases"),
+        want_digests: a.kv.contains_key("digests"),
+        stride,
+    };
+    let mut indices = Vec::new();
+    let mut i = from + ((offset + stride - (from % stride)) % stride);
+    while i < to {
+        indices.push(i);
         i += stride;
     }
+    let mut stats = Stats::default();
+    #[cfg(not(miri))]
+    let rc = if fresh > 0 { run_forked(&cfg, &indices, fresh, &mut stats, deadline) } else { run_indices(&cfg, &indices, &mut stats, deadline) };
+    #[cfg(miri)]
+    let rc = {
+        let _ = fresh;
+        run_indices(&cfg, &indices, &mut stats, deadline)
+    };
     stats.add("wall_ms", t0.elapsed().as_millis() as u64);
     if out == "-" {
         println!("STATS {}", serde_json::to_string(&stats).unwrap());
